@@ -469,6 +469,8 @@ class SimBackend(object):
         rec['fault'] = kind
         self.fired[kind] = self.fired.get(kind, 0) + 1
         d = self._duration(tl)
+        if kind == 'crash':
+            return self._crash(rec, d)
         if kind == 'byzantine':
             M = self.byz_provider()
             ids, pairs, n1, _t = self.pairs_provider(lp)
@@ -544,6 +546,18 @@ class SimBackend(object):
         self.log('backend.fault', (rec['round'], kind, vm))
         return lp.status
 
+    def _crash(self, rec, d):
+        """The solver process dies (killed, out of memory, binary or its
+        temporary files gone): PuLP raises PulpSolverError out of
+        actualSolve and leaves the problem's status and values as they
+        were."""
+        self.clock.advance(d)
+        rec['status'] = 'Crashed'
+        self.log('backend.fault', (rec['round'], 'crash', None))
+        raise pulp.PulpSolverError(
+            'Pulp: Error while executing cbc (mpsim-injected-crash, round '
+            '%d)' % rec['round'])
+
     def _inject_without_enumeration(self, solver, lp, rec, fault, tl, kw):
         """The program is outside the stand-in's fragment (a continuous
         variable, say): faults are still injected, with real CBC supplying
@@ -552,6 +566,8 @@ class SimBackend(object):
         rec['fault'] = kind
         self.fired[kind] = self.fired.get(kind, 0) + 1
         d = self._duration(tl)
+        if kind == 'crash':
+            return self._crash(rec, d)
         if kind == 'byzantine':
             M = self.byz_provider()
             ids, pairs, n1, _t = self.pairs_provider(lp)
